@@ -64,3 +64,9 @@ pub assume_specification<T, U, F: FnOnce(T) -> U>[Poll::<T>::map](p: Poll<T>, f:
     ensures
         p is Pending ==> r is Pending,
         p matches Poll::Ready(t) ==> (r matches Poll::Ready(u) && f.ensures((t,), u));
+
+pub assume_specification<T, U, F: FnOnce(T) -> U>[Option::<T>::map_or](o: Option<T>, default: U, f: F) -> (r: U)
+    requires o matches Some(t) ==> f.requires((t,)),
+    ensures
+        o is None ==> r == default,
+        o matches Some(t) ==> f.ensures((t,), r);
